@@ -10,17 +10,17 @@ type StackN<const N: usize, const S: usize> = any_vec::mem::StackN<N, S>;
 
 #[cfg(feature = "lib_alloc")]
 anyvec_pbt::configs! {
-    Tr8_Multi:    Tr8,    Multi, dyn Cloneable, G_LAYOUT | G_CORE;
+    Tr8_Multi:    Tr8,    Multi, dyn Cloneable, G_LAYOUT | G_CORE | G_FAULT;
     Pl0_Multi:    Pl0,    Multi, dyn Cloneable, G_LAYOUT;
     Pl160_Multi:  Pl160,  Multi, dyn Cloneable, G_LAYOUT;
     Tr16_Heap:    Tr16,   Heap,   dyn Cloneable, G_RAW;
-    Tr8_Guard:    Tr8,    GuardB, dyn Cloneable, G_BACKEND;
+    Tr8_Guard:    Tr8,    GuardB, dyn Cloneable, G_BACKEND | G_FAULT;
     Tr0_Stack:    Tr0,    Stack<8>,       dyn Cloneable, G_BACKEND | G_STACK;
     Tr8_Heap_None:  Tr8, Heap, dyn None,                    G_CONSTRAINT | G_RAW;
-    Tr8_Heap_CSS:   Tr8, Heap, dyn Cloneable + Send + Sync, G_CONSTRAINT | G_RAW;
+    Tr8_Heap_CSS:   Tr8, Heap, dyn Cloneable + Send + Sync, G_CONSTRAINT | G_RAW | G_FAULT;
 }
 
 #[cfg(not(feature = "lib_alloc"))]
 anyvec_pbt::configs! {
-    Tr8_StackN:   Tr8,    StackN<4, 40>,  dyn Cloneable, G_BACKEND | G_STACK;
+    Tr8_StackN:   Tr8,    StackN<4, 40>,  dyn Cloneable, G_BACKEND | G_STACK | G_FAULT;
 }
